@@ -67,7 +67,19 @@ def measure_prefill(T: int) -> int:
 
 
 def run_free(*, T, N, fails=(), abandon=None, rounds=1, jitter_seed=None, watchdog=30.0, stall=None) -> Exec:
-    """Free-running execution (OS scheduling), logged at the linearization points."""
+    """Free-running execution (OS scheduling), logged at the linearization points. A hang is reported when it is
+    structural (every live thread waits on an empty queue - decided from the shim's own state, not from the clock);
+    when only the watchdog expired, the clock may simply have been too short for a loaded machine: the execution is
+    repeated once with a ten times longer watchdog, and only that second verdict counts."""
+    ex = _run_free_once(T=T, N=N, fails=fails, abandon=abandon, rounds=rounds, jitter_seed=jitter_seed,
+                        watchdog=watchdog, stall=stall)
+    if ex.hang and not (ex.deadlock or {}).get("structural"):
+        ex = _run_free_once(T=T, N=N, fails=fails, abandon=abandon, rounds=rounds, jitter_seed=jitter_seed,
+                            watchdog=10 * watchdog, stall=stall)
+    return ex
+
+
+def _run_free_once(*, T, N, fails=(), abandon=None, rounds=1, jitter_seed=None, watchdog=30.0, stall=None) -> Exec:
     ex = Exec()
     ctl = LS.Controller(scheduled=False)
     rng = random.Random(jitter_seed)
